@@ -1,3 +1,5 @@
+from copy import deepcopy
+
 import numpy as np
 
 from mygrad.operation_base import Operation
@@ -45,8 +47,9 @@ class MoveAxis(Operation):
 
     def __call__(self, a, source, destination):
         self.variables = (a,)
-        self.source = source
-        self.destination = destination
+        # (copies: the caller may go on to mutate a list that specified the axes)
+        self.source = deepcopy(source)
+        self.destination = deepcopy(destination)
         return np.moveaxis(a.data, source, destination)
 
     def backward_var(self, grad, index, **kwargs):
@@ -73,8 +76,9 @@ class SwapAxes(Operation):
 class Roll(Operation):
     def __call__(self, a, shift, axis):
         self.variables = (a,)
-        self.shift = shift
-        self.axis = axis
+        # (copies: the caller may go on to mutate a list that specified the shifts/axes)
+        self.shift = deepcopy(shift)
+        self.axis = deepcopy(axis)
         return np.roll(a.data, shift=shift, axis=axis)
 
     def backward_var(self, grad, index, **kwargs):
